@@ -72,6 +72,24 @@ def _brief(e):
     return json.dumps(e)[:300]
 
 
+def _random_sequences(path, seed, n):
+    """random publication sequences for one namespace: 2-4 shard counts (small, medium, a few large), any order"""
+    import random
+    rnd = random.Random(seed * 7919 + 13)
+    with open(path, "w") as f:
+        for _ in range(n):
+            seq, base, table = [], 0, []
+            for _ in range(rnd.randint(2, 4)):
+                k = rnd.random()
+                c = rnd.randint(1, 8) if k < 0.4 else rnd.randint(1, 64) if k < 0.9 else rnd.randint(65, 400)
+                recv = rnd.random() < 0.9
+                if recv:
+                    table = list(range(base, base + c))
+                seq.append({"count": c, "order": rnd.choice(["asc", "desc", "mid", "shuffle"]), "recv": recv, "table": table})
+                base += c
+            f.write(json.dumps(seq) + "\n")
+
+
 class Run:
     """one harness execution (mode, input behaviours) with its trace"""
 
@@ -153,6 +171,10 @@ def _report(ctx, binp, run, rejected):
             ctx.notes.setdefault("unreproduced", []).append("%s: %s" % (run.label, _brief(e)))
             continue
         p = ctx.save_replay("%s.json" % tag, {"mode": run.mode, "behaviour": beh, "rejected_line": again})
+        if run.mode == "client":
+            ctx.violation("real client shard manager breaks ShardMap.tla: %s after the namespace was re-created with shard counts %s"
+                          % (_brief(again), [(x["count"], x["order"], "received" if x["recv"] else "missed") for x in beh]), p)
+            continue
         steps = "" if beh is None else " after " + " ; ".join(
             "%s%s" % (s["a"], [(c["name"], c["count"], c["rf"]) for c in s["ns"]] if s["a"] == "Config" else
                       ("(%s,%s)" % (s["name"], s["id"]) if s["a"] == "Deleted" else "")) for s in beh[:8])
@@ -167,7 +189,8 @@ def run(ctx):
         "GenerateShards is observed for 1..64, 2^k-1, 2^k, 2^k+1 up to 4097 and 65535..65538, 131071 shards; the model "
         "GenShards covers every count the (small) space can hold",
         "client and servers agree once the client holds the currently published assignments; a stale client is still "
-        "required to route every key to exactly one shard",
+        "required to route every key to exactly one shard; after every update the client's table must be exactly the "
+        "publication it applied (no stale shard survives, also when the new shards are fewer and wider)",
         "configuration notifications that change nothing are not sent to the coordinator (they end its config watcher, "
         "cluster_config_resource.go:waitForUpdates - observation, not part of this property)",
     ]
@@ -179,7 +202,15 @@ def run(ctx):
     r = ctx.tlc("ShardMapMC", "shardmap-mutant-gaps.cfg", label="mutant-gaps", allow_violation=True)
     if "PartitionOK" not in r.violated:
         raise vf.Inconclusive("the mutant AllOrNothing=FALSE was not caught by TLC (vacuous model?)")
-    ctx.notes["design_mutants_caught"] = ["AllOrNothing=FALSE -> PartitionOK violated"]
+    # the client's table under re-creations of its namespace with any old/new shard counts (fewer, wider shards too)
+    r = ctx.tlc("ShardMapClientMC", "shardmap-client-quick.cfg" if quick else "shardmap-client-thorough.cfg", label="design-client")
+    ctx.log("design (client table): %d distinct states, %d transitions: table = last publication, routing agrees"
+            % (r.distinct, r.generated))
+    r = ctx.tlc("ShardMapClientMC", "shardmap-client-mutant-endpoint.cfg", label="mutant-endpoint", allow_violation=True)
+    if "TableLast" not in r.violated and "RoutesLast" not in r.violated:
+        raise vf.Inconclusive("the mutant EndpointOverlap=TRUE was not caught by TLC (vacuous client model?)")
+    ctx.notes["design_mutants_caught"] = ["AllOrNothing=FALSE -> PartitionOK violated",
+                                          "EndpointOverlap=TRUE (old shard strictly inside a new one is kept) -> TableLast violated"]
 
     runs = []
     # 3a. GenerateShards and big namespaces
@@ -191,6 +222,23 @@ def run(ctx):
     runs.append(Run(ctx, binp, "replay", "wit-direct", wit))
     runs.append(Run(ctx, binp, "coord", "wit-coord", wit))
     ctx.replayed += 2 * sum(1 for _ in open(wit))
+
+    # the connected client across re-creations: witnesses, every TLC sequence (counts 1..8, <= 3 publications,
+    # two update orders), random larger sequences
+    cw = os.path.join(vf.VERIF, "replays", "C18", "client-witnesses.ndjson")
+    runs.append(Run(ctx, binp, "client", "wit-client", cw))
+    ctx.replayed += sum(1 for _ in open(cw))
+    r = ctx.tlc("ShardMapClientMC", "shardmap-client-steps.cfg", label="client-steps")
+    cpath = os.path.join(ctx.scratch, "client-seqs.ndjson")
+    n = _export(r, "SEQ", cpath)
+    if n == 0:
+        raise vf.Inconclusive("TLC exported no publication sequences")
+    s = Run(ctx, binp, "client", "client-seqs", cpath)
+    runs.append(s)
+    ctx.replayed += s.stats["behaviours"]
+    rpath2 = os.path.join(ctx.scratch, "client-random.ndjson")
+    _random_sequences(rpath2, ctx.seed, 300 if quick else 3000)
+    runs.append(Run(ctx, binp, "client", "client-random", rpath2))
 
     r = ctx.tlc("ShardMapMC", "shardmap-steps.cfg" if quick else "shardmap-steps-thorough.cfg", label="steps")
     steps = os.path.join(ctx.scratch, "steps.ndjson")
